@@ -6,7 +6,7 @@ sys.path.insert(0, ROOT); sys.path.insert(0, os.path.join(ROOT, "checks"))
 
 HOOK_COMMITS = ["09f541b"]   # no hooks needed so far: static functions are reached by #include of the real .c file   # filled when hook commits exist in /repo
 NOT_APPLICABLE = {} # pid -> reason, for properties with no check module
-READY = ["C01", "C02", "C03", "C04", "C06", "C07", "C08", "C09", "C10", "C11", "C12", "C13", "C14", "C15", "C16", "C17", "C18", "C19", "C20"]   # check modules that are finished (others may be under construction)
+READY = ["C01", "C02", "C03", "C04", "C05", "C06", "C07", "C08", "C09", "C10", "C11", "C12", "C13", "C14", "C15", "C16", "C17", "C18", "C19", "C20"]   # check modules that are finished (others may be under construction)
 
 props = [json.loads(l) for l in open(os.path.join(ROOT, "properties.jsonl"))]
 checks = []
@@ -41,6 +41,10 @@ man = {
         "add_only": True,
     },
     "engines": [
+        {"name": "t0tool", "path": "/verif/encoders/t0tool.py", "serves_properties": ["C05", "C03", "C04", "C07", "C15", "C16", "C18"],
+         "kind_free_text": "encoders E2/E4: extracts the native words of the seven T0Comp-generated interpreters as C functions over the real context (validated against the real interpreter on the repo's test inputs each run), proves their stack effects with CBMC, and decides the VM stack bounds of the bytecode with z3"},
+        {"name": "ir2c", "path": "/verif/encoders/ir2c.py", "serves_properties": ["C08"],
+         "kind_free_text": "encoder E5: clang-14 LLVM IR of the real units -> C with observation hooks on branches, addresses, lengths and division operands; re-validated against the natively compiled real code on random inputs each run; self-composition harnesses are decided by CBMC"},
         {"name": "cbmc-harness", "path": "/verif/verif.py", "serves_properties": [c["property_id"] for c in checks],
          "kind_free_text": "driver: goto-cc of real units + dual-mode harness -> cbmc 6.11 (SAT back ends) with unwinding assertions, witness twin for vacuity, trace -> native ASan/UBSan replay, evidence writer"},
     ],
